@@ -193,3 +193,30 @@ def _c02_replay(chk, keys, rng, what):
             chk.violation("shear:depends-on-heat-capacity", "adiabatic phonon value of %s changes with C_V" % k, dict(key=k))
             return
     chk.harness_error("C02d: '%s' did not reproduce on the real code" % what)
+
+
+# ----------------------------------------------------------------------------------------------------
+# reference evaluation that does not go through tasks.py (used by concrete replays)
+# ----------------------------------------------------------------------------------------------------
+def reference_phonon(duck, strain, key, which="iso", _depth=0):
+    """Phonon contribution of one component computed by direct recursion over the real contribution classes
+    (no task list, no de-duplication, no result store): non-shear keys from the Longitudinal/OffDiagonal class at the
+    normalised strain fractions of the frame, shear keys from the shear class fed with recursively computed dependencies."""
+    tk, sh, ns, c_ = modules()
+    strain = numpy.asarray(strain, dtype=float)
+    ck = c_(key[1:]) if isinstance(key, str) else key
+    if not ck.is_shear:
+        i, j, k, l = ck.standard
+        tot = strain.sum(axis=1)
+        e = (strain[:, i - 1] / tot, strain[:, k - 1] / tot)
+        cls = ns.LongitudinalElasticModulusPhononContribution if ck.is_longitudinal else ns.OffDiagonalElasticModulusPhononContribution
+        o = cls(duck, e)
+        return numpy.asarray(o.value_isothermal if which == "iso" else o.value_adiabatic)
+    if _depth > 3:
+        raise RuntimeError("reference recursion too deep")
+    o = sh.ShearElasticModulusPhononContribution(strain, ck)
+    # shear dependencies are always taken from the isothermal values (statement of C02)
+    o.modulus = {k: reference_phonon(duck, strain, k, "iso", _depth + 1) for k in o.get_modulus_keys()}
+    sr = numpy.real(numpy.asarray(o.strain_rotated))
+    o.modulus_rotated = {k: reference_phonon(duck, sr, k, "iso", _depth + 1) for k in o.get_modulus_keys_rotated()}
+    return numpy.asarray(o.get_target_elastic_modulus())
